@@ -80,9 +80,10 @@ class MultiMapProxy(object):
         if not app_name:
             return self.index_list(req)
 
-        if not app_name or (
-            app_name not in self.apps and not self.loader.app_available(app_name)
-        ):
+        if not self.loader.app_available(app_name):
+            # forget the app when its configuration was removed
+            if app_name in self.apps:
+                del self.apps[app_name]
             return Response('not found', status=404)
 
         # safe instance/app name for authorization
